@@ -8,17 +8,9 @@ from pyvc.expr import OutOfSubset
 
 modname = sys.argv[1]
 filt = [a for a in sys.argv[2:] if not a.startswith("-")]
-m = importlib.import_module('contracts.' + modname)
-cons = {q: Contract(q, d, m.ALIASES) for q, d in m.C.items()}
-eng = Executor(cons, m.ALIASES, getattr(m, 'MACROS', {}), getattr(m, 'GLOBALS', {}))
-eng.sigs = {}
-nodes = {}
-for q in cons:
-    if cons[q].d.get('external'):
-        continue
-    node, seg, sha, path = extract.find(q)
-    nodes[q] = node
-    eng.sigs[q] = extract.signature_defaults(node)
+from pyvc.execute import make_engine
+eng, cons, nodes, shas, errs = make_engine(modname)
+print(errs) if errs else None
 allobl = []
 for q in cons:
     if q not in nodes or cons[q].trusted:
